@@ -6,6 +6,8 @@ advance, error reporting.
 namespace Bardolph.ParseTok
 open Bardolph
 
+variable {t : Bool}
+
 /-- `st'` differs from `st` at most in the emitted code, the scratch code, the op-code, the
 local symbols and the routine/matrix flags -/
 structure SameCore (st st' : St) : Prop where
@@ -24,38 +26,49 @@ theorem SameCore.okPost {st st' : St} (h : SameCore st st') (hi : Inv st) : OkPo
   · rw [ht]; exact List.suffix_refl _
 
 theorem Spec.of_sameCore {m : M α} (h : ∀ st, ∃ a st', m st = .ok a st' ∧ SameCore st st') :
-    Spec m := by
+    Spec t m := by
   refine ⟨fun st hst => ?_⟩
   obtain ⟨a, st', he, hs⟩ := h st
   rw [he]
   exact hs.okPost hst
 
-theorem spec_getSt : Spec getSt := Spec.of_sameCore fun st => ⟨st, st, rfl, ⟨rfl, rfl, rfl, rfl, rfl⟩⟩
+theorem spec_getSt : Spec t getSt := Spec.of_sameCore fun st => ⟨st, st, rfl, ⟨rfl, rfl, rfl, rfl, rfl⟩⟩
 
-theorem spec_emitTo (cg : CG) (i : Instr) : Spec (emitTo cg i) :=
+theorem spec_emitTo (cg : CG) (i : Instr) : Spec t (emitTo cg i) :=
   Spec.of_sameCore fun st => by
     cases cg <;> exact ⟨(), _, rfl, ⟨rfl, rfl, rfl, rfl, rfl⟩⟩
 
-theorem spec_emit (i : Instr) : Spec (emit i) := spec_emitTo .main i
+theorem spec_emit (i : Instr) : Spec t (emit i) := spec_emitTo .main i
 
-theorem spec_emitListTo (cg : CG) (is : List Instr) : Spec (emitListTo cg is) :=
+theorem spec_emitListTo (cg : CG) (is : List Instr) : Spec t (emitListTo cg is) :=
   Spec.of_sameCore fun st => by
     cases cg <;> exact ⟨(), _, rfl, ⟨rfl, rfl, rfl, rfl, rfl⟩⟩
 
-theorem spec_emitList (is : List Instr) : Spec (emitList is) := spec_emitListTo .main is
+theorem spec_emitList (is : List Instr) : Spec t (emitList is) := spec_emitListTo .main is
 
-theorem spec_offset : Spec offset :=
+theorem spec_offset : Spec t offset :=
   Spec.of_sameCore fun st => ⟨_, st, rfl, ⟨rfl, rfl, rfl, rfl, rfl⟩⟩
 
-theorem spec_patch (idx : Nat) (f : Instr → Instr) : Spec (patch idx f) :=
+theorem spec_patch (idx : Nat) (f : Instr → Instr) : Spec t (patch idx f) :=
   Spec.of_sameCore fun st => ⟨(), _, rfl, ⟨rfl, rfl, rfl, rfl, rfl⟩⟩
 
-theorem spec_takeInner : Spec takeInner :=
+theorem spec_takeInner : Spec t takeInner :=
   Spec.of_sameCore fun st => ⟨_, _, rfl, ⟨rfl, rfl, rfl, rfl, rfl⟩⟩
 
 /-- a `modifySt` that touches only code, scratch code and op-code -/
-theorem spec_modifySt_same {f : St → St} (h : ∀ st, SameCore st (f st)) : Spec (modifySt f) :=
+theorem spec_modifySt_same {f : St → St} (h : ∀ st, SameCore st (f st)) : Spec t (modifySt f) :=
   Spec.of_sameCore fun st => ⟨(), _, rfl, h st⟩
+
+theorem inv_of_eq {st st' : St} (h : Inv st) (hc : st'.cur = st.cur) (hr : st'.rest = st.rest)
+    (hg : st'.globals = st.globals) : Inv st' := by
+  have ht : st'.toks = st.toks := by simp [St.toks, hc, hr]
+  exact ⟨by rw [ht]; exact h.toks, by rw [ht]; exact h.lastEof, by rw [hg]; exact h.macros⟩
+
+theorem okPost_of_shape {st st' : St} (h : Inv st) (hc : st'.cur = st.cur)
+    (hr : st'.rest = st.rest) (hg : st'.globals = st.globals) (he : st'.errors = st.errors)
+    (hs : shape st'.loops = shape st.loops) : OkPost st st' := by
+  have ht : st'.toks = st.toks := by simp [St.toks, hc, hr]
+  exact ⟨inv_of_eq h hc hr hg, by rw [ht]; exact List.suffix_refl _, he, hs⟩
 
 /-! ### errors -/
 
@@ -66,15 +79,15 @@ theorem failPost_addError (st : St) (msg : String) : FailPost st (st.addError ms
   subst he
   exact .inr ⟨st.cur, by simp [St.toks], rfl⟩
 
-theorem spec_triggerError (msg : String) : Spec (triggerError msg : M α) :=
+theorem spec_triggerError (msg : String) : Spec t (triggerError msg : M α) :=
   ⟨fun st _ => failPost_addError st msg⟩
 
-theorem spec_tokenError (pre post : String) : Spec (tokenError pre post : M α) :=
+theorem spec_tokenError (pre post : String) : Spec t (tokenError pre post : M α) :=
   ⟨fun st _ => failPost_addError st _⟩
 
-theorem spec_timeSpecError : Spec (timeSpecError : M α) := spec_tokenError _ _
+theorem spec_timeSpecError : Spec t (timeSpecError : M α) := spec_tokenError _ _
 
-theorem spec_syntaxError : Spec (syntaxError : M α) := spec_tokenError _ _
+theorem spec_syntaxError : Spec t (syntaxError : M α) := spec_tokenError _ _
 
 /-! ### tokens -/
 
@@ -110,20 +123,20 @@ theorem advance_spec {st : St} (h : Inv st) :
         rw [hr]; exact this
       · rw [ht]; simp [St.toks]
 
-theorem spec_nextToken : Spec nextToken := by
+theorem spec_nextToken : Spec t nextToken := by
   refine ⟨fun st h => ?_⟩
   obtain ⟨h1, h2, _⟩ := advance_spec h
   unfold nextToken
   simp only [h1]
   exact h2
 
-theorem spec_skipToken : Spec skipToken := by
+theorem spec_skipToken : Spec t skipToken := by
   refine ⟨fun st h => ?_⟩
   exact (advance_spec h).2.1
 
 /-! ### symbol table -/
 
-theorem spec_addVariable (n : String) : Spec (addVariable n) := by
+theorem spec_addVariable (n : String) : Spec t (addVariable n) := by
   refine ⟨fun st h => ?_⟩
   show OkPost st (if st.inRoutine then _ else _)
   by_cases hr : st.inRoutine = true
@@ -137,7 +150,7 @@ theorem spec_addVariable (n : String) : Spec (addVariable n) := by
     · cases hl; cases hk
     · exact h.macros m s hl hk
 
-theorem spec_addRoutine (n : String) (ps : List String) : Spec (addRoutine n ps) := by
+theorem spec_addRoutine (n : String) (ps : List String) : Spec t (addRoutine n ps) := by
   refine ⟨fun st h => ?_⟩
   refine ⟨⟨h.toks, h.lastEof, ?_⟩, List.suffix_refl _, rfl, rfl⟩
   intro m s hl hk
@@ -146,7 +159,7 @@ theorem spec_addRoutine (n : String) (ps : List String) : Spec (addRoutine n ps)
   · cases hl; cases hk
   · exact h.macros m s hl hk
 
-theorem spec_addParam (n p : String) : Spec (addParam n p) := by
+theorem spec_addParam (n p : String) : Spec t (addParam n p) := by
   refine ⟨fun st h => ?_⟩
   show OkPost st _
   cases hr : st.getRoutine n with
@@ -169,7 +182,7 @@ theorem spec_addParam (n p : String) : Spec (addParam n p) := by
       · cases hr
     · exact h.macros m s' hl hk
 
-theorem spec_addMacro (n : String) (v : CVal) (hn : nameLike n = true) : Spec (addMacro n v) := by
+theorem spec_addMacro (n : String) (v : CVal) (hn : nameLike n = true) : Spec t (addMacro n v) := by
   refine ⟨fun st h => ?_⟩
   refine ⟨⟨h.toks, h.lastEof, ?_⟩, List.suffix_refl _, rfl, rfl⟩
   intro m s hl hk
@@ -277,39 +290,39 @@ theorem currentStr_cases {st : St} (h : Inv st) :
 
 /-- composing with `_current_constant()`: when it leaves a message (an invalid time pattern) the
 continuation must fail -/
-theorem spec_bind_currentConstant {K : Option CVal → M β} (hK : ∀ v, Spec (K v))
+theorem spec_bind_currentConstant {K : Option CVal → M β} (hK : ∀ v, Spec t (K v))
     (hbad : ∀ st, Inv st → st.cur.ty = .timePattern → ∃ msg, K none st = .fail (st.addError msg)) :
-    Spec (currentConstant >>= K) := by
+    Spec t (currentConstant >>= K) := by
   refine ⟨fun st h => ?_⟩
   rcases currentConstant_cases h with ⟨v, hv, _⟩ | ⟨hty, hv⟩
   · rw [bind_ok hv]; exact (hK v).run st h
   · rw [bind_ok hv]
     obtain ⟨msg, hm⟩ := hbad _ (inv_addError h _) hty
-    show (K none _).Good st
+    show (K none _).Good t st
     rw [hm]
     exact failPost_addError2 st _ _
 
-theorem spec_bind_currentStr {K : String → M β} (hK : ∀ v, Spec (K v))
+theorem spec_bind_currentStr {K : String → M β} (hK : ∀ v, Spec t (K v))
     (hbad : ∀ st, Inv st → st.cur.ty = .timePattern → ∃ msg, K "" st = .fail (st.addError msg)) :
-    Spec (currentStr >>= K) := by
+    Spec t (currentStr >>= K) := by
   refine ⟨fun st h => ?_⟩
   rcases currentStr_cases h with ⟨v, hv, _⟩ | ⟨hty, hv⟩
   · rw [bind_ok hv]; exact (hK v).run st h
   · rw [bind_ok hv]
     obtain ⟨msg, hm⟩ := hbad _ (inv_addError h _) hty
-    show (K "" _).Good st
+    show (K "" _).Good t st
     rw [hm]
     exact failPost_addError2 st _ _
 
-theorem spec_bind_currentLiteral {K : Option CVal → M β} (hK : ∀ v, Spec (K v))
+theorem spec_bind_currentLiteral {K : Option CVal → M β} (hK : ∀ v, Spec t (K v))
     (hbad : ∀ st, Inv st → st.cur.ty = .timePattern → ∃ msg, K none st = .fail (st.addError msg)) :
-    Spec (currentLiteral >>= K) := by
+    Spec t (currentLiteral >>= K) := by
   refine ⟨fun st h => ?_⟩
   rcases currentLiteral_cases h with ⟨v, hv, _⟩ | ⟨hty, hv⟩
   · rw [bind_ok hv]; exact (hK v).run st h
   · rw [bind_ok hv]
     obtain ⟨msg, hm⟩ := hbad _ (inv_addError h _) hty
-    show (K none _).Good st
+    show (K none _).Good t st
     rw [hm]
     exact failPost_addError2 st _ _
 
